@@ -185,7 +185,7 @@ def run(res, b, tier, seed):
              "comments before line breaks, blank/comment-only lines at existing line breaks, LF vs CRLF, final newline; oracle: same verdict and byte-identical "
              "Bash and Batch scripts; distinct = distinct source texts" % k,
         samples=[dict(original=groups[0][0].files["main.tsh"].decode("latin1")[:300], relayout=groups[0][1].files["main.tsh"].decode("latin1")[:300])],
-        programs=dict(total=len(groups), accepted=accepted, rejected=rejected),
+        program_classes=dict(total=len(groups), accepted=accepted, rejected=rejected),
         correspondence=dict(stage="tokens (Model.Lexer vs lexer.Tokenize, incl. positions) on all layouts", compared=len(cases), disagreements=len(dis)),
         oracle_failures=len(fails),
     ))
